@@ -179,7 +179,9 @@ impl Prop for C02 {
         ctx.eval(1);
         if let Ok(r1) = root1.to_rnum() {
             let names: std::collections::BTreeSet<String> = r1.g.keys().chain(rr.g.keys()).cloned().collect();
-            let scale = names.iter().fold(rr.v.abs(), |m, n| m.max(rr.gd(n).abs()));
+            // magnitude of everything the root carries (a gradient that cancels to ~0 is only as exact
+            // as the terms it was formed from, whose size the Hessian reflects), with an absolute floor
+            let scale = rr.h.values().fold(names.iter().fold(rr.v.abs(), |m, n| m.max(rr.gd(n).abs())), |m, x| m.max(x.abs())).max(1e-6);
             // both were judged against the same reference with the noise band in run_tree; here a coarse direct check
             let mut bad = !crate::util::rel_close(r1.v, rr.v, 1e-9, 1e-12 * scale);
             for n in names.iter() {
